@@ -41,7 +41,8 @@ TRUSTED_BASE = [
     "each attribute as the code's == tests read it (0 == False == 0.0, 1 == True); str(node) and str(label) are computed by Python",
     "model/C17_IntLaws.v: hand-written model of CPython 3.12 fractions.Fraction.limit_denominator and of stoich._lcm / _vector_to_minimal_integer / "
     "integer_conservation_laws; which branch the code took is observed by giving the module its own round()",
-    "numpy/scipy numerics are NOT trusted and NOT modelled: their integer/boolean outputs are compared per input with certified exact values",
+    "numpy/scipy numerics are NOT trusted and NOT modelled: their integer/boolean outputs are compared per input with certified exact values; the four flags the "
+    "verdict logic reads from them are checked per input against the certificates (premise slot, C17_verdicts_sound_checked)",
     "the certificate finders (harness/gen/c17_exact.py: integer echelon factorisation, exact Fraction simplex) are untrusted; only the Coq checkers are",
 ]
 ASSUMPTIONS = ["fractional coefficients of caller-supplied graphs are multiples of 1/4 in the populations (exact in binary floating point)",
@@ -585,7 +586,10 @@ def _impl_core(case, H, Xv=None):
                   int(R.shape[1]) if bool(stoich.has_irreversible_futile_cycles(Xv)) == (int(R.shape[1]) > 0) else -1)],
             truth_c, truth_f,
             _one(cons, flag, sm.is_conservative, sm2.is_conservative, sm4.is_conservative),
-            _opt(_one(consist, sm.is_consistent, sm2.is_consistent))]
+            _opt(_one(consist, sm.is_consistent, sm2.is_consistent)),
+            # the four premises of C17_verdicts_sound hold on this input: the model computes implb(flag of the numerics, certified truth)
+            # for scanL, lpL, lpR = 0, scanR (C17_verdicts_sound_checked); a premise that fails is a correspondence break
+            [True, True, True, True]]
 
 
 def exact_truth(Si, m, n):
@@ -1167,7 +1171,7 @@ def distribution(cases, obss):
                     hist["edits"][key] = hist["edits"].get(key, 0) + 1
             o = o[-1] if isinstance(o, list) and o and isinstance(o[-1], list) else o
         views[c.get("view", "hyper")] = views.get(c.get("view", "hyper"), 0) + 1
-        if not (isinstance(o, list) and len(o) == 17):
+        if not (isinstance(o, list) and len(o) == 18):
             verd["error/other"] = verd.get("error/other", 0) + 1
             continue
         m, n = len(o[1]), len(o[2])
